@@ -6,6 +6,12 @@ from bardolph.lib.injection import inject
 from bardolph.vm.vm_codes import IoOp, Register
 
 class VmIo:
+    # The settings a script can name in a printf field. Anything else,
+    # including names that differ only in case or that happen to match an
+    # internal register of the VM, is a variable.
+    _SETTINGS = ('hue', 'saturation', 'brightness', 'kelvin', 'red', 'green',
+                 'blue', 'duration', 'time')
+
     def __init__(self, call_stack, reg):
         self._call_stack = call_stack
         self._reg = reg
@@ -52,9 +58,9 @@ class VmIo:
             if name is not None and (len(name) == 0 or name.isdecimal()):
                 num_unnamed += 1
             if name is not None and len(name) > 0 and not name.isdecimal():
-                reg = Register.from_string(name)
-                if reg is not None:
-                    named[name] = self._reg.get_by_enum(reg)
+                if name in self._SETTINGS:
+                    named[name] = self._reg.get_by_enum(
+                        Register.from_string(name))
                 else:
                     named[name] = self._call_stack.get_variable(name)
         first = len(self._unnamed) - num_unnamed
